@@ -490,3 +490,91 @@ Proof.
   assert (LK2 : forallb (lit_key (length D)) kes = true). { simpl in LK. apply andb_true_iff in LK. tauto. }
   rewrite !circuit_is_count_w by auto. rewrite !pipe_wmc_w_correct by auto. reflexivity.
 Qed.
+
+(* ------------------------------------------------------------------ trivial ConstraintAD objects *)
+(* the real formula also carries the constraints of groups with a single relevant member (extra_node
+   None); they emit no clause, so the CNF is the one built from cons_of *)
+Lemma trivial_constraints_no_clauses : forall ads,
+    constraint_clauses ads = constraint_clauses (filter (fun ad => 2 <=? length (ad_nodes ad))%nat ads).
+Proof.
+  unfold constraint_clauses. induction ads as [|ad r IH]; auto.
+  cbn [filter flat_map]. destruct (2 <=? length (ad_nodes ad))%nat eqn:E.
+  - cbn [flat_map]. f_equal. exact IH.
+  - rewrite ad_spec_trivial by (apply Nat.leb_gt; exact E). exact IH.
+Qed.
+
+Theorem clark_cnf_trivial : forall P D ws cons names,
+    filter (fun ad => 2 <=? length (ad_nodes ad))%nat cons = cons_of P D ->
+    map conv_clause (c_clauses (clarks_completion
+       {| f_nodes := D; f_weights := ws; f_constraints := cons; f_names := names |} false cnf_empty))
+    = clark_cnf P D.
+Proof.
+  intros P D ws cons names H. unfold clark_cnf, formula_of. rewrite !clark_clauses_eq. simpl.
+  rewrite (trivial_constraints_no_clauses cons), H.
+  rewrite (trivial_constraints_no_clauses (cons_of P D)).
+  assert (E : filter (fun ad => 2 <=? length (ad_nodes ad))%nat (cons_of P D) = cons_of P D).
+  { rewrite <- H. clear. induction cons as [|ad r IH]; auto.
+    cbn [filter]. destruct (2 <=? length (ad_nodes ad))%nat eqn:E; auto.
+    cbn [filter]. rewrite E. f_equal. exact IH. }
+  now rewrite E.
+Qed.
+
+(* ------------------------------------------------------------------ several queries, one acyclic formula *)
+Lemma Forall2_forall : forall (A B X : Type) (R : X -> A -> B -> Prop) (x0 : X) l l',
+    (forall x, Forall2 (R x) l l') -> Forall2 (fun a b => forall x, R x a b) l l'.
+Proof.
+  intros A B X R x0 l l' H. assert (H0 := H x0). induction H0 as [|a b l l' _ _ IH].
+  - constructor.
+  - constructor.
+    + intros x. specialize (H x). inversion H; subst; auto.
+    + apply IH. intros x. specialize (H x). inversion H; subst; auto.
+Qed.
+
+Lemma Forall2_map_eq : forall (A B C : Type) (f : A -> C) (g : B -> C) l l',
+    Forall2 (fun a b => g b = f a) l l' -> map g l' = map f l.
+Proof. induction 1; simpl; auto. now rewrite H, IHForall2. Qed.
+
+Theorem pipeline_counts_all : forall tc use_memo P qs e M D kqs kes,
+    stratified (wp_graph P) -> (forall a, is_model (wp_graph P) a (M a)) -> extras_fresh P ->
+    break_cycles_m tc use_memo (wp_graph P) (ai_of P) qs e = Some (D, kqs, kes) ->
+    dag_ok P D ->
+    Forall2 (fun q kq => pipe_wmc P D (kq :: kes) = world_sum P (fun a => b2q (holds (M a) (q :: e)))) qs kqs /\
+    pipe_wmc P D kes = world_sum P (fun a => b2q (holds (M a) e)).
+Proof.
+  intros tc um P qs e M D kqs kes ST HM XF BC OK.
+  assert (C9 : forall a, topo D /\
+              Forall2 (fun n k => key_val (vget (dag_val a D)) k = key_val (M a) n) qs kqs /\
+              Forall2 (fun n k => key_val (vget (dag_val a D)) k = key_val (M a) n) e kes).
+  { intros a. apply (break_cycles_correct tc um (wp_graph P) (ai_of P) qs e D kqs kes a (M a)); auto. }
+  assert (T : topo D) by (destruct (C9 a0); auto).
+  assert (E2 : forall a, holds (vget (dag_val a D)) kes = holds (M a) e).
+  { intros a. destruct (C9 a) as [_ [_ F2]]. apply Forall2_holds; auto. }
+  assert (DEPM : forall ns b, In b (wp_groups P) -> dep (fun y => y <> snd b) (fun a => b2q (holds (M a) ns))).
+  { intros ns b Hb a a' H. f_equal. apply holds_ext. apply (model_dep (wp_graph P) M ST HM).
+    intros id Hid. apply H. intro; subst. eapply XF; eauto. }
+  split.
+  - assert (FA : Forall2 (fun n k => forall a, key_val (vget (dag_val a D)) k = key_val (M a) n) qs kqs).
+    { apply (Forall2_forall _ _ _ (fun a n k => key_val (vget (dag_val a D)) k = key_val (M a) n) a0).
+      intros a. destruct (C9 a) as [_ [F1 _]]. exact F1. }
+    eapply Forall2_impl; [|exact FA]. intros q kq Hq. simpl in Hq.
+    assert (E1 : forall a, holds (vget (dag_val a D)) (kq :: kes) = holds (M a) (q :: e)).
+    { intros a. unfold holds in *. simpl. rewrite E2. f_equal. apply Hq. }
+    rewrite pipe_wmc_world; auto.
+    + unfold world_sum. apply bsum_ext. intros a. now rewrite E1.
+    + intros b Hb a a' H. rewrite !E1. apply (DEPM (q :: e) b Hb a a' H).
+  - rewrite pipe_wmc_world; auto.
+    + unfold world_sum. apply bsum_ext. intros a. now rewrite E2.
+    + intros b Hb a a' H. rewrite !E2. apply (DEPM e b Hb a a' H).
+Qed.
+
+Theorem pipeline_all_correct_ok : forall tc use_memo P qs e M D kqs kes,
+    stratified (wp_graph P) -> (forall a, is_model (wp_graph P) a (M a)) -> extras_fresh P ->
+    break_cycles_m tc use_memo (wp_graph P) (ai_of P) qs e = Some (D, kqs, kes) ->
+    dag_ok P D ->
+    pipeline_all tc use_memo P qs e = Some (map (fun q => world_prob P M q e) qs).
+Proof.
+  intros tc um P qs e M D kqs kes ST HM XF BC OK.
+  destruct (pipeline_counts_all tc um P qs e M D kqs kes ST HM XF BC OK) as [F1 E2].
+  unfold pipeline_all. rewrite BC. f_equal. apply Forall2_map_eq.
+  eapply Forall2_impl; [|exact F1]. intros q kq H. simpl in H. unfold world_prob. now rewrite H, E2.
+Qed.
